@@ -1,7 +1,7 @@
 // C11 impl driver for Dune::ReservedVector<int,n> (two vectors A (0), B (1); public interface only).
 // ops: pb:i:v pop:i rsz:i:k cl:i set:i:j:v fill:i:v mk:i:c:v (= ReservedVector(c,v)) from:i:v1,v2,.. (iterator-range ctor)
 //      swap  asg:i (V_i = V_{1-i})  at:i:j
-// observation per step: size[elements]front,back for A and B, then (A==B)(A<B)(B<A), then result of at (_ / OOR / value)
+// observation per step: size[elements]front,back for A and B, then (A==B)(A<B)(B<A), then result of at (_ / OOR / value), then (A!=B)(A>B)(A<=B)(A>=B)
 #include <config.h>
 #include <dune/common/reservedvector.hh>
 #include <stdexcept>
@@ -77,7 +77,8 @@ static void run(const std::vector<std::string>& ops)
     if (A == B && (hash_value(A) != hash_value(B) || std::hash<RV>()(A) != std::hash<RV>()(B))) flags += "!hash";
     bool e = (A == B), l1 = (A < B), l2 = (B < A);
     if ((A != B) == e || (A > B) != l2 || (A <= B) != !l2 || (A >= B) != !l1) flags += "!cmp";
-    std::string s = obs1<n>(A, flags) + " " + obs1<n>(B, flags) + " " + (e ? "1" : "0") + (l1 ? "1" : "0") + (l2 ? "1" : "0") + " " + at;
+    std::string s = obs1<n>(A, flags) + " " + obs1<n>(B, flags) + " " + (e ? "1" : "0") + (l1 ? "1" : "0") + (l2 ? "1" : "0") + " " + at
+                    + " " + ((A != B) ? "1" : "0") + ((A > B) ? "1" : "0") + ((A <= B) ? "1" : "0") + ((A >= B) ? "1" : "0");
     c11::step_done(s + flags);
   }
 }
